@@ -73,3 +73,28 @@ pub fn err_kind(e: &sourcemap::Error) -> &'static str {
         InvalidBase64(_) => "b64",
     }
 }
+
+/// C04, second sentence: iterating a map yields non-decreasing generated positions, `get_token(i)` is the i-th
+/// iterated token and the count matches.  Returns "" when that holds, a marker that no model ever prints otherwise.
+pub fn order_marker(sm: &sourcemap::SourceMap) -> &'static str {
+    let mut prev: Option<(u32, u32)> = None;
+    let mut n = 0usize;
+    for (i, t) in sm.tokens().enumerate() {
+        let p = t.get_dst();
+        if let Some(q) = prev {
+            if p < q {
+                return "ORDER-VIOLATED";
+            }
+        }
+        prev = Some(p);
+        match sm.get_token(i) {
+            Some(g) if g.get_raw_token() == t.get_raw_token() => {}
+            _ => return "GETTOKEN-MISMATCH",
+        }
+        n += 1;
+    }
+    if n != sm.get_token_count() as usize || sm.get_token(n).is_some() {
+        return "GETTOKEN-MISMATCH";
+    }
+    ""
+}
